@@ -172,6 +172,10 @@ func replayFetch(o *out, lines []string) {
 				switch fl[2] {
 				case "out":
 					fc.cli.VerifStep(object.VerifChanOut)
+					for _, l := range fc.eng.nonces {
+						o.pf("%s\n", l)
+					}
+					fc.eng.nonces = nil
 				case "segin":
 					fc.cli.VerifStep(object.VerifChanSegIn)
 				case "fetch":
